@@ -51,6 +51,7 @@ import (
 	"log"
 	"os"
 	"reflect"
+	"strings"
 	"runtime"
 	"slices"
 	_ "unsafe"
@@ -330,6 +331,9 @@ func visitInstr(fr *frame, instr ssa.Instruction) continuation {
 			panic(fmt.Sprintf("ssa.MakeMap.Reserve value %d does not fit in int", reserve))
 		}
 		fr.env[instr] = makeMap(instr.Type().Underlying().(*types.Map).Key(), reserve)
+		if fr.i.eng != nil {
+			fr.i.eng.noteMapMade(fr, fr.env[instr])
+		}
 
 	case *ssa.Range:
 		fr.env[instr] = rangeIter(fr, fr.get(instr.X), instr.X.Type())
@@ -378,6 +382,9 @@ func visitInstr(fr *frame, instr ssa.Instruction) continuation {
 		m := fr.get(instr.Map)
 		key := fr.get(instr.Key)
 		v := fr.get(instr.Value)
+		if fr.i.eng != nil {
+			fr.i.eng.noteMapWrite(fr, m)
+		}
 		switch m := m.(type) {
 		case map[value]value:
 			m[key] = v
@@ -555,6 +562,14 @@ func callSSA(i *interpreter, caller *frame, callpos token.Pos, fn *ssa.Function,
 	fr.env = make(map[ssa.Value]value)
 	if i.eng != nil {
 		i.eng.cur = fr
+		if isKeeperCtor(fn) {
+			i.eng.ctorDepth++
+			defer func() { i.eng.ctorDepth-- }()
+		} else if fn.Name() == "New" && fn.Pkg != nil && strings.HasSuffix(fn.Pkg.Pkg.Path(), "/zzvrf/wire") {
+			// the harness environment is being built (hooks are set on the keepers etc.)
+			i.eng.wiring++
+			defer func() { i.eng.wiring-- }()
+		}
 	}
 	fr.block = fn.Blocks[0]
 	fr.locals = make([]value, len(fn.Locals))
